@@ -11,9 +11,13 @@
      [k |-> "resume",  L, c, r]     L's paused handler continues; it received value r from yield c
      [k |-> "ask", c] / [k |-> "ask_done", c, chosen]   next_layer hook of the NextLayer in front
      [k |-> "end"]                  end of the behaviour
-   Layers are strings, events and commands small integers.                                        *)
+   Layers are strings, events and commands small integers.  The layer "R" is the router, i.e. the layer ABOVE the
+   children in Children; it handles events of its own (blocking once per event) and forwards everything else.
+   While R waits for a completion, everything below it is legitimately held back (a blocked layer blocks the layers
+   below it, never the ones above).                                                                *)
 EXTENDS Verif
-CONSTANTS Layers
+CONSTANTS Children
+Layers == Children \cup {"R"}
 
 MonInit == [bad |-> <<>>, wit |-> {},
             arr |-> [L \in Layers |-> <<>>],   \* events that arrived for L, in order
@@ -24,10 +28,12 @@ MonInit == [bad |-> <<>>, wit |-> {},
             chosen |-> FALSE]                  \* has the protocol (next layer) been chosen
 
 \* checked whenever the environment acts again: everything that could run synchronously must have run
+\* L can run right now: the protocol is chosen and no layer above L is waiting
+Free(m, L) == m.chosen /\ (L = "R" \/ m.wait["R"] = 0)
 Stalled(m) ==
-  IF \E L \in Layers : m.chosen /\ m.wait[L] = 0 /\ m.cur[L] = 0 /\ m.ent[L] < Len(m.arr[L])
+  IF \E L \in Layers : Free(m, L) /\ m.wait[L] = 0 /\ m.cur[L] = 0 /\ m.ent[L] < Len(m.arr[L])
     THEN <<"C04.event_delayed_or_lost">>
-  ELSE IF \E L \in Layers : m.wait[L] # 0 /\ \E p \in m.completed : p[1] = m.wait[L]
+  ELSE IF \E L \in Layers : Free(m, L) /\ m.wait[L] # 0 /\ \E p \in m.completed : p[1] = m.wait[L]
     THEN <<"C04.completion_not_delivered">>
   ELSE IF \E L \in Layers : m.cur[L] # 0 /\ m.wait[L] = 0
     THEN <<"C04.handler_abandoned">>
@@ -50,16 +56,19 @@ Clause(m, ev) ==
     [] OTHER -> <<>>
 
 MonStep(m, ev) ==
-  LET m1 == [m EXCEPT !.bad = Clause(m, ev)] IN
+  LET m1 == [m EXCEPT !.bad = IF m.bad # <<>> THEN m.bad ELSE Clause(m, ev)] IN
   CASE ev.k = "arrive" -> [m1 EXCEPT !.arr[ev.L] = Append(@, ev.e),
                                      !.wit = @ \cup (IF \E K \in Layers : K # ev.L /\ m.wait[K] # 0 /\ m.wait[ev.L] = 0 /\ m.chosen
                                                      THEN {"arrive_while_sibling_blocked"} ELSE {})
                                                 \cup (IF m.wait[ev.L] # 0 THEN {"arrive_while_blocked"} ELSE {})
+                                                \cup (IF ev.L # "R" /\ m.wait["R"] # 0 THEN {"arrive_while_parent_blocked"} ELSE {})
                                                 \cup (IF ~m.chosen THEN {"arrive_before_choice"} ELSE {})]
     [] ev.k = "enter"  -> [m1 EXCEPT !.ent[ev.L] = @ + 1, !.cur[ev.L] = ev.e]
     [] ev.k = "exit"   -> [m1 EXCEPT !.cur[ev.L] = 0]
     [] ev.k = "block"  -> [m1 EXCEPT !.wait[ev.L] = ev.c]
-    [] ev.k = "complete" -> [m1 EXCEPT !.completed = @ \cup {<<ev.c, ev.r>>}]
+    [] ev.k = "complete" -> [m1 EXCEPT !.completed = @ \cup {<<ev.c, ev.r>>},
+                                       !.wit = @ \cup (IF m.wait["R"] # 0 /\ m.wait["R"] # ev.c
+                                                       THEN {"child_completion_while_parent_blocked"} ELSE {})]
     [] ev.k = "resume" -> [m1 EXCEPT !.wait[ev.L] = 0,
                                      !.wit = @ \cup {"resume"} \cup (IF m.ent[ev.L] < Len(m.arr[ev.L]) THEN {"resume_with_queue"} ELSE {})]
     [] ev.k = "ask_done" -> [m1 EXCEPT !.chosen = ev.chosen, !.wit = @ \cup (IF ev.chosen THEN {"chosen"} ELSE {"not_chosen"})]
